@@ -576,7 +576,7 @@ class Interp:
                 return x
             self.unsupported("conversion %s of %r" % (path, x), e)
         if name == "from_subset" and len(a) == 1 and isinstance(x, Sc):
-            return x
+            return Sc(d.fn("up", x.v)) if getattr(self, "tag_conversions", False) else x
         if name.startswith("from_") and path.startswith("num_traits::FromPrimitive") and isinstance(x, Sc):
             return Opt(True, x)
         if name == "clone" or name == "to_owned" or name == "clone_owned":
@@ -644,11 +644,14 @@ class Interp:
                                      "%s(%s, ...)" % (name, d.show(x.v))))
         if name in ("is_in_subset",):
             return BoolV(self.decide(("subset", d.key(x.v)), "is_in_subset(%s)" % d.show(x.v)))
-        if name in ("to_subset_unchecked", "to_superset", "from_superset_unchecked", "from_subset"):
-            return x
+        tag = getattr(self, "tag_conversions", False)
+        if name in ("to_superset", "from_subset"):
+            return Sc(d.fn("up", x.v)) if tag else x
+        if name in ("to_subset_unchecked", "from_superset_unchecked"):
+            return Sc(d.fn("down", x.v)) if tag else x
         if name in ("to_subset", "from_superset"):
             ok = self.decide(("subset", d.key(x.v)), "is_in_subset(%s)" % d.show(x.v))
-            return Opt(True, x) if ok else Opt(False)
+            return Opt(True, Sc(d.fn("down", x.v)) if tag else x) if ok else Opt(False)
         if name == "splat" and not rest:
             return Sc(fn_n(d, "splat", x.v))
         if name in ("extract", "extract_unchecked") and len(rest) == 1 and isinstance(rest[0], Sc):
@@ -825,6 +828,15 @@ class Interp:
         x = a[0]
         trait = c.get("trait") or ""
         tshort = trait.split("::")[-1]
+        if tshort == "SupersetOf" and name in ("to_subset", "is_in_subset", "to_subset_unchecked", "from_subset"):
+            # simba's blanket impl SupersetOf<SS> for SP forwards to SS: SubsetOf<SP>
+            m2 = {"to_subset": "from_superset", "is_in_subset": "is_in_subset", "to_subset_unchecked": "from_superset_unchecked",
+                  "from_subset": "to_superset"}[name]
+            for imp in self.F.impls_of("SubsetOf", x.adt):
+                b = self.F.impl_item(imp, m2)
+                if b is not None:
+                    return self.call_body(b, args, e)
+            self.unsupported("SupersetOf forward %s on %s" % (name, x.adt), e)
         if name.startswith("simd_") and tshort in ("SimdComplexField", "SimdRealField"):
             # simba's blanket impl: simd_<m> == <m> of ComplexField / RealField
             name = name[5:]
